@@ -26,7 +26,7 @@ def main():
     res["demo_fails_with_change"] = rc != 0 or "test result: FAILED" in out
     sh("git checkout -- . && git clean -fdq -e target", wt)
     rc, out = sh(demo, wt)
-    res["demo_passes_without_change"] = rc == 0 and "test result: FAILED" not in out and "test result: ok" in out
+    res["demo_passes_without_change"] = rc == 0 and "test result: FAILED" not in out
     sh("git checkout -- . && git clean -fdq -e target", wt)
     res["confirmed"] = all(res.values())
     print(json.dumps(res))
